@@ -51,6 +51,14 @@ theorem mem_idx_detach (h : WfS a hole) (hq : a.q? k = some e) {x : Nat} :
   · rintro ⟨⟨p, hp, rfl⟩, hne⟩
     exact ⟨p, ⟨hp, Or.inr hne⟩, rfl⟩
 
+theorem flatten_map_erase_sublist (l : List (List Nat)) (k : Nat) :
+    (l.map (·.erase k)).flatten.Sublist l.flatten := by
+  induction l with
+  | nil => exact List.Sublist.refl _
+  | cons x r ih =>
+    simp only [List.map_cons, List.flatten_cons]
+    exact List.Sublist.append List.erase_sublist ih
+
 /-- everything except the three index lists is as after `removeFromConn` -/
 theorem detach_same (hq : a.q? k = some e) :
     (a.detach k).qs = (a.removeFromConn k).qs ∧ (a.detach k).conns = (a.removeFromConn k).conns ∧
@@ -97,6 +105,12 @@ theorem wf_detach (h : WfS a hole) (hh : hole = none ∨ hole = some k) (hq : a.
       refine ⟨hn.erase k, fun x hx => ?_⟩
       have := (List.Nodup.mem_erase_iff hn).mp hx
       exact (hidx' x).mpr ⟨hm x this.2, this.1⟩
+    · exact (List.Sublist.append List.erase_sublist (flatten_map_erase_sublist _ _)).nodup hi.disj
+    · intro x hx
+      obtain ⟨hxi, hne⟩ := (hidx' x).mp hx
+      rcases hi.nl x hxi with h' | ⟨l, hl, hxl⟩
+      · exact Or.inl ((List.mem_erase_of_ne hne).mpr h')
+      · exact Or.inr ⟨l.erase k, List.mem_map.mpr ⟨l, hl, rfl⟩, (List.mem_erase_of_ne hne).mpr hxl⟩
   · rw [eqKC, hs.2.2.1, hs.2.2.2.1]
     have ht := h1.t
     rw [rfc_bt hq, rfc_po hq, rfc_idx] at ht
@@ -172,12 +186,23 @@ theorem detach_qKO (hq : a.q? k = some e) : (a.detach k).qKO = a.qKO := by
 theorem detach_cFUQ (hq : a.q? k = some e) : (a.detach k).cFUQ = (a.removeFromConn k).cFUQ := by
   unfold Sk.cFUQ; rw [(detach_same hq).2.1]
 
-theorem step_detach {xf xi d} (h : WfS a hole) (hq : a.q? k = some e) : StepS xf xi d a (a.detach k) := by
+/-- the token of the callback that is in flight once a query of the application has been unlinked -/
+def ownerTok : Owner → Option Nat
+  | .user tok => some tok
+  | _ => none
+
+theorem LcSub.map_erase (l : List (List Nat)) (k : Nat) : LcSub (l.map (·.erase k)) l := by
+  induction l with
+  | nil => exact LcSub.nil
+  | cons x r ih => exact LcSub.cons (fun _ h => List.mem_of_mem_erase h) ih
+
+theorem step_detach {xf xi d} (h : WfS a hole) (hq : a.q? k = some e) :
+    StepT xf xi (ownerTok e.owner) d a (a.detach k) := by
   have hs := detach_same hq
   have h1 : StepS xf xi d a (a.removeFromConn k) := step_rfc h hq
   refine ⟨hs.2.2.2.2.2.2.2.2.2.2.2.2.2.1, by rw [hs.2.2.2.2.2.2.2.2.2.1]; exact Nat.le_refl _,
     by rw [hs.2.2.2.2.2.2.2.1]; exact Nat.le_refl _,
-    fun x hx => Or.inl ((mem_idx_detach h hq).mp hx).1, ?_, ?_, ?_⟩
+    fun x hx => Or.inl ((mem_idx_detach h hq).mp hx).1, ?_, ?_, ?_, ?_⟩
   · rw [detach_cFUQ hq]; exact h1.unl
   · intro id _ _ hn
     unfold Sk.NoSub at *
@@ -186,6 +211,20 @@ theorem step_detach {xf xi d} (h : WfS a hole) (hq : a.q? k = some e) : StepS xf
   · intro id ha _
     unfold Sk.Active at *
     rw [hs.2.2.2.2.2.1, hs.2.2.2.2.2.2.2.2.2.2.2.1]; exact ha
+  · refine ⟨by rw [hs.2.2.2.2.2.2.2.2.2.2.2.2.1]; exact fun _ h => h, ?_, ?_, ?_, ?_, ?_⟩
+    · rw [hs.2.2.2.2.2.2.2.2.2.2.2.2.2.2.2.1]; exact LcSub.map_erase _ _
+    · intro x hx; rw [hs.2.2.2.2.2.2.2.2.2.2.2.2.2.2.1] at hx; exact Or.inl (List.mem_of_mem_erase hx)
+    · intro hl; rw [detach_qKO hq, hs.2.2.2.2.2.2.2.1]; exact hl
+    · intro _ p hp _; rw [detach_qKO hq]; exact hp
+    · intro _ p hp hpi hn tok ho
+      right
+      have hpk : p.1 = k := by
+        by_cases he : p.1 = k
+        · exact he
+        · exact absurd ((mem_idx_detach h hq).mpr ⟨hpi, he⟩) hn
+      have hn' : a.qK.Nodup := h.q.nodup
+      have : p.2 = e.owner := Sk.qKO_unique hn' (by rw [← hpk]; exact hp) (Sk.q?_mem_proj hq).2.1
+      rw [← this, ho]; rfl
 
 /-- after unlinking a linked query its owner's callback is free to be handed over, and the query counts as
     one outstanding completion of its compound request -/
